@@ -67,7 +67,7 @@ def shard(cases, n):
     k = max(1, (len(cases) + n - 1) // n)
     return [cases[i:i+k] for i in range(0, len(cases), k)]
 
-def run_both(cases, workdir, jobs=16, threads=1, want_model=True, want_impl=True, release=False):
+def run_both(cases, workdir, jobs=16, threads=1, want_model=True, want_impl=True, release=False, impl_timeout=300):
     """run implementation and model on the cases, sharded over processes; returns (impl, model) dicts id->result"""
     from concurrent.futures import ThreadPoolExecutor
     os.makedirs(workdir, exist_ok=True)
@@ -78,7 +78,7 @@ def run_both(cases, workdir, jobs=16, threads=1, want_model=True, want_impl=True
     impl = {}; model = {}; nondet = []; problems = []
     def one(p):
         r = {}
-        if want_impl: r['impl'] = run_impl(p, threads=threads, release=release)
+        if want_impl: r['impl'] = run_impl(p, threads=threads, release=release, timeout=impl_timeout)
         if want_model: r['model'] = run_model(p)
         return r
     with ThreadPoolExecutor(max_workers=jobs) as ex:
